@@ -455,7 +455,7 @@ impl<'a> Exec<'a> {
                             checks.push("C03.step-eq");
                         }
                         match d.area {
-                            Area::Schema => checks.push("C06.schema-now"),
+                            Area::Schema | Area::Tables => checks.push("C06.schema-now"),
                             Area::Summary => checks.push("C10.getters-now"),
                             Area::StreamList | Area::Signature => checks.push("C11.listing"),
                             Area::StreamContent => checks.push("C11.content"),
@@ -476,7 +476,8 @@ impl<'a> Exec<'a> {
                             _ => {}
                         }
                         match d.area {
-                            Area::Schema => checks.push("C06.schema-reopen"),
+                            // (a table that is not reported at all is not "reported with the same columns")
+                            Area::Schema | Area::Tables => checks.push("C06.schema-reopen"),
                             Area::Summary => checks.push("C10.getters-reopen"),
                             Area::StreamList | Area::Signature => checks.push("C11.listing"),
                             Area::StreamContent => checks.push("C11.content"),
@@ -1940,6 +1941,26 @@ pub fn run(trace: &Trace, cfg: &ExecCfg) -> RunResult {
                 ex.model.on_save();
                 ex.stats.probe("byte_oracle_after_divergence");
                 ex.byte_oracle(&img);
+                // ... and which tables would a reopen report?  (C06's "after saving and reopening":
+                // a run that ended on a row-level divergence never got to its next restart.)
+                if !ex.faults_in_play() && !ex.violations.iter().any(|v| v.check.starts_with("C06.")) {
+                    let st = Rc::new(RefCell::new(DiskState::new(img.clone(), fault_free(), Vec::new())));
+                    match guarded(|| Package::open(SimDisk::new(st.clone()))) {
+                        Caught::Val(Ok(mut p2)) => {
+                            if let Caught::Val(snap) = guarded(|| snapshot::take(&mut p2)) {
+                                let diffs = snapshot::compare(&snap, &ex.model);
+                                if let Some(d) = diffs.iter().find(|d| matches!(d.area, Area::Schema | Area::Tables)) {
+                                    let m = format!("after the divergence above, saving and reopening: {}", d.msg);
+                                    ex.viol("C06.schema-reopen", "after-divergence", m);
+                                }
+                            }
+                        }
+                        Caught::Val(Err(e)) => {
+                            ex.viol("C06.schema-reopen", "after-divergence", format!("after the divergence above, the saved file does not reopen: {}", e));
+                        }
+                        Caught::Panic(..) => {}
+                    }
+                }
             }
         }
     }
